@@ -31,6 +31,13 @@ def derive_seed(*parts) -> int:
     return int.from_bytes(h[:6], "big")
 
 
+_JOBS = []  # inherited by forked workers, so strategies / bodies need not be picklable
+
+
+def _one_shard_idx(i):
+    return _one_shard(_JOBS[i])
+
+
 def _one_shard(args):
     pid, name, strategy_fn, body, n_examples, sd, shrink, extra = args
     rec = Rec(pid)
@@ -117,8 +124,11 @@ def run_property(
     if shards == 1:
         results = [_one_shard(jobs[0])]
     else:
+        global _JOBS
+        _JOBS = jobs
         with CTX.Pool(min(shards, ctx.procs)) as pool:
-            results = pool.map(_one_shard, jobs, chunksize=1)
+            results = pool.map(_one_shard_idx, range(len(jobs)), chunksize=1)
+        _JOBS = []
     for r in results:
         ctx.merge(r)
 
@@ -131,5 +141,18 @@ def pmap(ctx, fn, items, procs=None, chunksize=1):
         return []
     if procs == 1 or len(items) == 1:
         return [fn(i) for i in items]
-    with CTX.Pool(min(procs, len(items))) as pool:
-        return pool.map(fn, items, chunksize=chunksize)
+    global _PMAP
+    _PMAP = (fn, items)
+    try:
+        with CTX.Pool(min(procs, len(items))) as pool:
+            return pool.map(_pmap_idx, range(len(items)), chunksize=chunksize)
+    finally:
+        _PMAP = None
+
+
+_PMAP = None
+
+
+def _pmap_idx(i):
+    fn, items = _PMAP
+    return fn(items[i])
